@@ -325,6 +325,25 @@ Proof.
       rewrite SBu in H. apply bounds_sound. exact H.
 Qed.
 
+Lemma nonneg_combine : forall (xs ws : list Q), Forall (fun w => 0 <= w) ws -> nonneg_weights (combine xs ws).
+Proof.
+  unfold nonneg_weights. induction xs as [|x xt IH]; intros [|w wt] F; cbn; try constructor.
+  - inversion F; assumption.
+  - apply IH. inversion F; assumption.
+Qed.
+Lemma wsum_w_pos : forall (xs ws : list Q), length ws = length xs -> Forall (fun w => 0 <= w) ws ->
+  (exists w, In w ws /\ ~ w == 0) -> 0 < wsum_w (combine xs ws).
+Proof.
+  induction xs as [|x xt IH]; intros [|w wt] L F (w0 & I & N); cbn [length] in L; try discriminate; [destruct I|].
+  inversion F as [|? ? Hw F']; subst. cbn [combine]. rewrite wsum_w_cons.
+  assert (P : 0 <= wsum_w (combine xt wt)).
+  { clear -F'. revert wt F'. induction xt as [|y yt IH]; intros [|v vt] F; cbn; try lra; unfold wsum_w; cbn; try lra.
+    inversion F; subst. specialize (IH vt H2). unfold wsum_w in IH. lra. }
+  destruct I as [->|I].
+  - assert (0 < w0) by (apply Qnot_le_lt; intro C; apply N; lra). lra.
+  - specialize (IH wt ltac:(lia) F' (ex_intro _ w0 (conj I N))). lra.
+Qed.
+
 (* ====================== 4b. GeoMean, unweighted, at most 64 values: through the n-th power ======================
    exp and ln are never evaluated: the observed g satisfies |g^n - prod xs| <= geo_rel n * prod xs *)
 Fixpoint Qprod (xs : list Q) : Q := match xs with [] => 1 | x :: t => x * Qprod t end.
@@ -406,14 +425,239 @@ Proof.
   setoid_replace (1 * Qprod xs) with (Qprod xs) in W by ring. exact W.
 Qed.
 
+(* ====================== 4c. GeoMean through an integer power, any non-negative coefficients ======================
+   (weighted Sample.GeoMean: c_i = w_i / W).  D = lcm of the reduced denominators of the c_i, e_i = c_i D naturals:
+   |g^D - prod x_i^e_i| <= D (n + 8) 64 2^-52 prod x_i^e_i *)
+Fixpoint Qprodpow (xs : list Q) (es : list nat) : Q :=
+  match xs, es with x :: xt, e :: et => Qpw x e * Qprodpow xt et | _, _ => 1 end.
+Definition geo_rel_D (D n : nat) : Q := Qofnat D * (Qofnat n + 8) * 64 * (1 # (2 ^ 52)%positive).
+
+Lemma Qred_inject_Z k : Qred (inject_Z k) = inject_Z k.
+Proof.
+  unfold Qred, inject_Z. cbn [Qnum Qden].
+  pose proof (Z.ggcd_gcd k 1) as G. pose proof (Z.ggcd_correct_divisors k 1) as C.
+  destruct (Z.ggcd k 1) as [g [aa bb]]. cbn [fst] in G. rewrite Z.gcd_1_r in G. subst g. destruct C as [C1 C2].
+  rewrite Z.mul_1_l in C1, C2. subst aa bb. reflexivity.
+Qed.
+
+Lemma lcm_fold_props : forall cs a, (0 < a)%Z ->
+  let r := fold_left (fun a c => Z.lcm a (Zpos (Qden (Qred c)))) cs a in
+  (0 < r)%Z /\ (a | r)%Z /\ Forall (fun c => (Zpos (Qden (Qred c)) | r)%Z) cs.
+Proof.
+  induction cs as [|c cs IH]; intros a Ha; cbn [fold_left]; cbv zeta.
+  - split; [exact Ha|]. split; [apply Z.divide_refl | constructor].
+  - set (a' := Z.lcm a (Zpos (Qden (Qred c)))).
+    assert (Ha' : (0 < a')%Z).
+    { pose proof (Z.lcm_nonneg a (Zpos (Qden (Qred c)))) as N. fold a' in N.
+      destruct (Z.eq_dec a' 0) as [E|E]; [|lia]. unfold a' in E. apply Z.lcm_eq_0 in E. destruct E; lia. }
+    destruct (IH a' Ha') as (R1 & R2 & R3). split; [exact R1|]. split.
+    + eapply Z.divide_trans; [apply Z.divide_lcm_l | exact R2].
+    + constructor; [|exact R3]. eapply Z.divide_trans; [apply Z.divide_lcm_r | exact R2].
+Qed.
+
+(* a non-negative rational whose reduced denominator divides D, times D, is a natural number *)
+Lemma coeff_times_D c D : 0 <= c -> (0 < D)%Z -> (Zpos (Qden (Qred c)) | D)%Z ->
+  Qofnat (Z.to_nat (Qnum (Qred (c * inject_Z D)))) == c * inject_Z D.
+Proof.
+  intros Hc HD [k Hk].
+  assert (E : c * inject_Z D == inject_Z (Qnum (Qred c) * k)).
+  { rewrite <- (Qred_correct c) at 1. destruct (Qred c) as [a b]. cbn [Qnum Qden] in *. subst D.
+    unfold Qeq, Qmult, inject_Z. cbn [Qnum Qden]. rewrite Pos.mul_1_r. cbn. nia. }
+  rewrite (Qred_complete _ _ E), Qred_inject_Z. cbn [inject_Z Qnum]. rewrite E.
+  assert (N : (0 <= Qnum (Qred c) * k)%Z).
+  { assert (0 <= c * inject_Z D) by (apply Qmult_le_0_compat; [exact Hc | unfold Qle; cbn; lia]).
+    rewrite E in H. unfold Qle in H. cbn in H. lia. }
+  unfold Qofnat. rewrite Z2Nat.id by exact N. reflexivity.
+Qed.
+
+Lemma target_prodpow : forall xs es a,
+  fold_left (fun a p => Qred (a * qpow (fst p) (snd p))) (combine xs es) a == a * Qprodpow xs es.
+Proof.
+  induction xs as [|x xs IH]; intros [|e es] a; cbn [combine fold_left Qprodpow]; try ring.
+  rewrite IH, Qred_correct. cbn [fst snd]. rewrite qpow_Qpw. ring.
+Qed.
+
+Definition geo_power_ok (xs cs : list Q) (g : Q) : Prop :=
+  exists (D : nat) (es : list nat), (0 < D)%nat /\ length es = length cs /\
+    Forall2 (fun e c => Qofnat e == c * Qofnat D) es cs /\
+    Qabs (Qpw g D - Qprodpow xs es) <= geo_rel_D D (length xs) * Qprodpow xs es.
+
+Theorem geo_check_power xs cs g : Forall (fun c => 0 <= c) cs -> (lcm_dens cs <= 64)%Z ->
+  geo_check xs cs (XFin g) <> 2%Z -> 0 < g /\ geo_power_ok xs cs g.
+Proof.
+  intros Fc L64 G. unfold geo_check in G.
+  destruct (Qle_bool g 0) eqn:E0; [congruence|]. apply Qle_bool_false in E0. split; [exact E0|].
+  cbv zeta in G. destruct (64 <? lcm_dens cs)%Z eqn:B; [apply Z.ltb_lt in B; lia|].
+  match type of G with (if ?b then _ else _) <> _ => destruct b eqn:W; [|congruence] end.
+  apply within_sound in W. clear G B.
+  destruct (lcm_fold_props cs 1%Z ltac:(lia)) as (Dpos & _ & Ddiv). fold (lcm_dens cs) in Dpos, Ddiv.
+  set (D := lcm_dens cs) in *.
+  exists (Z.to_nat D), (map (fun c => Z.to_nat (Qnum (Qred (c * inject_Z D)))) cs).
+  split; [lia|]. split; [apply map_length|]. split.
+  - assert (ED : Qofnat (Z.to_nat D) == inject_Z D) by (unfold Qofnat; rewrite Z2Nat.id by lia; reflexivity).
+    clear W L64. clearbody D. revert Fc Ddiv. induction cs as [|c cs IH]; intros Fc Ddiv; cbn [map]; constructor.
+    + inversion Fc; inversion Ddiv; subst. rewrite ED. apply coeff_times_D; [assumption | exact Dpos | assumption].
+    + inversion Fc; inversion Ddiv; subst. apply IH; assumption.
+  - rewrite target_prodpow, qpow_Qpw in W. unfold geo_rel_D.
+    assert (ED : Qofnat (Z.to_nat D) == inject_Z D) by (unfold Qofnat; rewrite Z2Nat.id by lia; reflexivity).
+    rewrite ED. unfold nq in W.
+    setoid_replace (1 * Qprodpow xs (map (fun c => Z.to_nat (Qnum (Qred (c * inject_Z D)))) cs))
+      with (Qprodpow xs (map (fun c => Z.to_nat (Qnum (Qred (c * inject_Z D)))) cs)) in W by ring.
+    exact W.
+Qed.
+
+(* ---------- the bracket the check falls back to when D > 64: g between the least and the greatest used value ---------- *)
+Definition e9g : Q := 1 # 1000000000.
+Definition geo_bracket_ok (l : list Q) (g : Q) : Prop :=
+  exists mn mx, is_min mn l /\ is_max mx l /\ mn * (1 - e9g) <= g /\ g <= mx * (1 + e9g).
+
+Lemma fold_Qminb_spec : forall l d, let m := fold_left Qminb l d in (m = d \/ In m l) /\ m <= d /\ forall y, In y l -> m <= y.
+Proof.
+  induction l as [|x l IH]; intros d; cbn [fold_left]; cbv zeta.
+  - split; [left; reflexivity|]. split; [lra | intros y []].
+  - destruct (IH (Qminb d x)) as (A & B & C). destruct (Qminb_spec d x) as (M1 & M2 & M3). split; [|split].
+    + destruct A as [A|A]; [|right; right; exact A]. destruct M3 as [M3|M3]; [left; congruence | right; left; congruence].
+    + lra.
+    + intros y [<-|Hy]; [lra | apply C; exact Hy].
+Qed.
+Lemma fold_Qmaxb_spec : forall l d, let m := fold_left Qmaxb l d in (m = d \/ In m l) /\ d <= m /\ forall y, In y l -> y <= m.
+Proof.
+  induction l as [|x l IH]; intros d; cbn [fold_left]; cbv zeta.
+  - split; [left; reflexivity|]. split; [lra | intros y []].
+  - destruct (IH (Qmaxb d x)) as (A & B & C). destruct (Qmaxb_spec d x) as (M1 & M2 & M3). split; [|split].
+    + destruct A as [A|A]; [|right; right; exact A]. destruct M3 as [M3|M3]; [left; congruence | right; left; congruence].
+    + lra.
+    + intros y [<-|Hy]; [lra | apply C; exact Hy].
+Qed.
+Lemma Qlmin_is_min x t : is_min (Qlmin x (x :: t)) (x :: t).
+Proof.
+  unfold Qlmin. destruct (fold_Qminb_spec (x :: t) x) as (A & B & C). split; [|exact C].
+  destruct A as [A|A]; [exists x; split; [left; reflexivity | rewrite A; reflexivity] | eexists; split; [exact A | reflexivity]].
+Qed.
+Lemma Qlmax_is_max x t : is_max (Qlmax x (x :: t)) (x :: t).
+Proof.
+  unfold Qlmax. destruct (fold_Qmaxb_spec (x :: t) x) as (A & B & C). split; [|exact C].
+  destruct A as [A|A]; [exists x; split; [left; reflexivity | rewrite A; reflexivity] | eexists; split; [exact A | reflexivity]].
+Qed.
+
+Lemma geo_check_bracket xs cs g : (64 < lcm_dens cs)%Z -> geo_check xs cs (XFin g) <> 2%Z ->
+  0 < g /\ geo_bracket_ok (used (combine xs cs)) g.
+Proof.
+  intros L G. unfold geo_check in G. destruct (Qle_bool g 0) eqn:E0; [congruence|]. apply Qle_bool_false in E0. split; [exact E0|].
+  cbv zeta in G. destruct (64 <? lcm_dens cs)%Z eqn:B; [|apply Z.ltb_ge in B; lia].
+  change (map fst (filter (fun p : Q * Q => negb (Qeq_bool (snd p) 0)) (combine xs cs))) with (used (combine xs cs)) in G.
+  destruct (used (combine xs cs)) as [|x t]; [congruence|].
+  match type of G with (if ?b then _ else _) <> _ => destruct b eqn:W; [|congruence] end.
+  breflect. exists (Qlmin x (x :: t)), (Qlmax x (x :: t)).
+  split; [apply Qlmin_is_min|]. split; [apply Qlmax_is_max|]. split; assumption.
+Qed.
+
+Theorem geo_check_sound xs cs g : Forall (fun c => 0 <= c) cs -> geo_check xs cs (XFin g) <> 2%Z ->
+  0 < g /\ (geo_power_ok xs cs g \/ geo_bracket_ok (used (combine xs cs)) g).
+Proof.
+  intros Fc G. destruct (Z_le_gt_dec (lcm_dens cs) 64) as [L|L].
+  - destruct (geo_check_power xs cs g Fc L G) as [P Q]. split; [exact P | left; exact Q].
+  - destruct (geo_check_bracket xs cs g ltac:(lia) G) as [P Q]. split; [exact P | right; exact Q].
+Qed.
+
+(* ---------- weighted: c_i W = w_i ---------- *)
+Definition wgeo_power_ok (xs ws : list Q) (g : Q) : Prop :=
+  exists (D : nat) (es : list nat), (0 < D)%nat /\ length es = length ws /\
+    Forall2 (fun e w => Qofnat e * Qsum ws == w * Qofnat D) es ws /\          (* e_i / D = w_i / W *)
+    Qabs (Qpw g D - Qprodpow xs es) <= geo_rel_D D (length xs) * Qprodpow xs es.
+
+Lemma used_coeffs : forall (xs cs ws : list Q) W, 0 < W -> Forall2 (fun c w => c * W == w) cs ws ->
+  used (combine xs cs) = used (combine xs ws).
+Proof.
+  intros xs cs ws W HW F. revert xs. induction F as [|c w cs ws Hcw F IH]; intros [|x xs]; try reflexivity.
+  cbn [combine]. assert (E : Qeq_bool c 0 = Qeq_bool w 0).
+  { destruct (Qeq_bool w 0) eqn:Ew.
+    - apply Qeq_bool_iff in Ew. apply Qeq_bool_iff. rewrite Ew in Hcw.
+      assert (c * W / W == 0) by (rewrite Hcw; field; lra). rewrite <- H. field. lra.
+    - destruct (Qeq_bool c 0) eqn:Ec; [|reflexivity]. apply Qeq_bool_iff in Ec. rewrite Ec in Hcw.
+      assert (Qeq_bool w 0 = true) by (apply Qeq_bool_iff; rewrite <- Hcw; ring). congruence. }
+  destruct (Qeq_bool w 0) eqn:Ew.
+  - rewrite (used_cons_zero x c _ E), (used_cons_zero x w _ Ew). apply IH.
+  - rewrite (used_cons_nz x c _ E), (used_cons_nz x w _ Ew). f_equal. apply IH.
+Qed.
+
+Lemma coeffs_nonneg : forall (cs ws : list Q) W, 0 < W -> Forall (fun w => 0 <= w) ws -> Forall2 (fun c w => c * W == w) cs ws ->
+  Forall (fun c => 0 <= c) cs.
+Proof.
+  intros cs ws W HW Fw F. induction F as [|c w cs ws Hcw F IH]; [constructor|].
+  inversion Fw; subst. constructor; [|apply IH; assumption].
+  assert (0 <= c * W) by (rewrite Hcw; assumption).
+  apply Qnot_lt_le. intro C. assert (c * W < 0) by nra. lra.
+Qed.
+
+Lemma power_weighted xs cs ws W g : 0 < W -> W == Qsum ws -> Forall2 (fun c w => c * W == w) cs ws ->
+  geo_power_ok xs cs g -> wgeo_power_ok xs ws g.
+Proof.
+  intros HW EW F (D & es & HD & L & Fe & Hv). exists D, es. split; [exact HD|].
+  split; [rewrite L; eapply GASort.Forall2_same_length; exact F|]. split; [|exact Hv].
+  assert (Fe' : Forall2 (fun e w => Qofnat e * W == w * Qofnat D) es ws).
+  { clear Hv L EW. revert es Fe. induction F as [|c w cs ws' Hcw F IH]; intros es Fe; inversion Fe; subst; constructor.
+    - match goal with H : Qofnat _ == c * _ |- _ => rewrite H end. rewrite <- Hcw. ring.
+    - apply IH. assumption. }
+  eapply GASort.Forall2_imp; [|exact Fe']. intros e w H. cbv beta in *. rewrite <- EW. exact H.
+Qed.
+
+(* unweighted: every coefficient is 1/n, so every value is used and D = n *)
+Lemma used_all_nonzero : forall (xs cs : list Q), length cs = length xs -> Forall (fun c => ~ c == 0) cs -> used (combine xs cs) = xs.
+Proof.
+  induction xs as [|x xs IH]; intros [|c cs] L F; cbn [length] in L; try discriminate; [reflexivity|].
+  inversion F as [|? ? Hc F']; subst. cbn [combine].
+  assert (E : Qeq_bool c 0 = false) by (destruct (Qeq_bool c 0) eqn:E; [apply Qeq_bool_iff in E; contradiction | reflexivity]).
+  rewrite (used_cons_nz x c _ E). f_equal. apply IH; [lia | exact F'].
+Qed.
+Lemma geomean_lcm xs cs : geomean xs = GExp cs -> lcm_dens cs = Zpos (Pos.of_nat (length xs)).
+Proof.
+  intro GM. destruct (geomean_coeffs xs cs GM) as (Lc & Fc & Fx).
+  assert (Hn : (0 < length xs)%nat) by (destruct xs; [discriminate GM | cbn; lia]).
+  unfold lcm_dens. destruct (lcm_dens_unit (length xs) Hn cs 1%Z (or_introl eq_refl) Fc) as [[_ E]|E]; [|exact E].
+  subst cs. cbn in Lc. lia.
+Qed.
+Theorem geomean_bracket_sound xs g : (64 < length xs)%nat ->
+  g_check xs (geomean xs) 0 (XFin g) <> 2%Z -> geomean xs <> GNaN -> geo_bracket_ok xs g.
+Proof.
+  intros L64 G NN. unfold g_check in G. destruct (geomean xs) as [|cs] eqn:GM; [congruence|]. clear NN. cbn [Z.eqb] in G.
+  destruct (geomean_coeffs xs cs GM) as (Lc & Fc & Fx).
+  assert (Q0 : 0 < Qofnat (length xs)) by (unfold Qofnat, Qlt; cbn; lia).
+  assert (Fnz : Forall (fun c => ~ c == 0) cs).
+  { eapply Forall_impl; [|exact Fc]. intros c Hc. cbv beta in Hc. rewrite Hc. intro Z0.
+    assert (0 < 1 / Qofnat (length xs)) by (apply Qlt_shift_div_l; lra). lra. }
+  assert (LD : (64 < lcm_dens cs)%Z).
+  { rewrite (geomean_lcm xs cs GM). rewrite <- (positive_nat_Z (Pos.of_nat (length xs))), Nat2Pos.id by lia. lia. }
+  destruct (geo_check_bracket xs cs g LD G) as [_ B].
+  rewrite (used_all_nonzero xs cs Lc Fnz) in B. exact B.
+Qed.
+
 (* ====================== 5. kind 0: every statistic of one sample ====================== *)
-(* GeoMean: NaN exactly for the empty sample or a non-positive value; else a positive float whose n-th power is
-   within geo_rel n of the product of the values when n <= 64 (for n > 64 the check only brackets g: partial) *)
+(* GeoMean: NaN exactly for the empty sample or a non-positive value; else a positive float g whose n-th power is
+   within geo_rel n of the product of the values when n <= 64; for n > 64 the check only brackets g between the least
+   and the greatest value (relative 1e-9): THAT WINDOW IS ALL an accepted verdict says about g then *)
 Definition geo_ok (xs : list Q) (o : xreal) : Prop :=
   ((xs = [] \/ exists x, In x xs /\ x <= 0) -> o = XNaN) /\
   (xs <> [] -> (forall x, In x xs -> 0 < x) ->
      exists g, o = XFin g /\ 0 < g /\
-       ((length xs <= 64)%nat -> Qabs (Qpw g (length xs) - Qprod xs) <= geo_rel (length xs) * Qprod xs)).
+       ((length xs <= 64)%nat -> Qabs (Qpw g (length xs) - Qprod xs) <= geo_rel (length xs) * Qprod xs) /\
+       ((64 < length xs)%nat -> geo_bracket_ok xs g)).
+(* Sample.GeoMean; weighted: through an integer power g^D = prod x_i^e_i with e_i / D = w_i / W when the lcm D of the
+   reduced denominators of the w_i / W is <= 64, else only the bracket; not compared when a non-positive value carries
+   weight (outside the property) or the total weight is 0 *)
+Definition sgeo_ok (xs : list Q) (ws : option (list Q)) (st : Z) (o : xreal) : Prop :=
+  match ws with
+  | None => st = 0%Z /\ geo_ok xs o
+  | Some w =>
+      match xs with
+      | [] => st = 0%Z /\ o = XNaN
+      | _ => length w = length xs -> Forall (fun v => 0 <= v) w ->
+             (forall x v, In (x, v) (combine xs w) -> x <= 0 -> v == 0) ->
+             (exists v, In v w /\ ~ v == 0) ->
+             st = 0%Z /\ exists g, o = XFin g /\ 0 < g /\
+               (wgeo_power_ok xs w g \/ geo_bracket_ok (used (combine xs w)) g)
+      end
+  end.
 
 Definition stats_ok (sorted hasw : bool) (xs ws : list Q) (o : stat_obs) : Prop :=
   let w := ows hasw ws in
@@ -424,7 +668,7 @@ Definition stats_ok (sorted hasw : bool) (xs ws : list Q) (o : stat_obs) : Prop 
   bounds_ok xs (so_bmin o) (so_bmax o) /\
   (* Sample methods *)
   smean_ok xs w (sm_st o) (sm_mean o) /\ svar_ok xs w (sv_st o) (sv_var o) /\ sstd_ok xs w (sd_st o) (sd_std o) /\
-  ssum_ok xs w (s_sum o) /\ sweight_ok xs w (s_weight o) /\ sbounds_ok xs w sorted (s_bmin o) (s_bmax o) /\
+  sgeo_ok xs w (sg_st o) (sg_geo o) /\ ssum_ok xs w (s_sum o) /\ sweight_ok xs w (s_weight o) /\ sbounds_ok xs w sorted (s_bmin o) (s_bmax o) /\
   (* Xs, Weights, Sorted bit for bit as before the calls *)
   s_unmod o = 1%Z.
 
@@ -432,9 +676,13 @@ Lemma first_false_forall l : first_false l = None -> Forall (fun b => b = true) 
 Proof. intro H. apply Forall_forall. intros b Hb. exact (first_false_none l H b Hb). Qed.
 Ltac pop R B := apply Forall_cons_iff in R; destruct R as [B R].
 
-Lemma geo_sound xs o : negb (g_check xs (geomean xs) 0 o =? 2)%Z = true -> geo_ok xs o.
+Lemma geo_sound xs st o : negb (g_check xs (geomean xs) st o =? 2)%Z = true -> st = 0%Z /\ geo_ok xs o.
 Proof.
-  intros H. breflect. unfold geo_ok. split.
+  intros H. breflect.
+  assert (S0 : st = 0%Z).
+  { destruct (Z.eq_dec st 0) as [E|E]; [exact E|]. exfalso. apply H. apply Z.eqb_neq in E. unfold g_check. rewrite E.
+    destruct (geomean xs); reflexivity. }
+  subst st. split; [reflexivity|]. unfold geo_ok. split.
   - intro N. apply geomean_nan_iff in N. unfold g_check in H. rewrite N in H. cbn [Z.eqb andb] in H.
     destruct (is_nan o) eqn:E; [now apply is_nan_true | congruence].
   - intros Hx Hp. assert (NN : geomean xs <> GNaN).
@@ -446,8 +694,51 @@ Proof.
       assert (P : 0 < g).
       { apply Qnot_le_lt. intro L. apply H. unfold g_check. destruct (geomean xs); [congruence|]. cbn [Z.eqb]. unfold geo_check.
         apply Qle_bool_iff in L. rewrite L. reflexivity. }
-      split; [exact P|]. intro L64. exact (proj2 (geomean_value_sound xs g L64 H NN)).
+      split; [exact P|]. split.
+      * intro L64. exact (proj2 (geomean_value_sound xs g L64 H NN)).
+      * intro L64. exact (geomean_bracket_sound xs g L64 H NN).
 Qed.
+
+Lemma map_snd_combine : forall (xs ws : list Q), length ws = length xs -> map snd (combine xs ws) = ws.
+Proof. induction xs as [|x xs IH]; intros [|w ws] L; cbn in *; try discriminate; try reflexivity. rewrite IH by lia. reflexivity. Qed.
+
+Lemma sgeo_sound xs ws sorted st o :
+  negb ((if (match ws with Some w => existsb (fun p => Qle_bool (fst p) 0 && negb (Qeq_bool (snd p) 0)) (combine xs w) | None => false end)
+            || (match ws with Some w => forallb (fun w => Qeq_bool w 0) w && negb (length xs =? 0)%nat | None => false end)
+         then 3%Z else g_check xs (sample_geomean (mkSample xs ws sorted)) st o) =? 2)%Z = true ->
+  sgeo_ok xs ws st o.
+Proof.
+  intro H. unfold sgeo_ok. destruct ws as [w|].
+  - destruct xs as [|x t] eqn:E.
+    + cbn in H. breflect. unfold g_check in H. cbn in H. rewrite Bool.andb_false_r in H.
+      destruct ((st =? 0)%Z && is_nan o) eqn:B; [|congruence]. breflect. split; [assumption | now apply is_nan_true].
+    + rewrite <- E in *. assert (Hx : xs <> []) by (rewrite E; discriminate).
+      intros L Fw NP NZ.
+      assert (B1 : existsb (fun p => Qle_bool (fst p) 0 && negb (Qeq_bool (snd p) 0)) (combine xs w) = false).
+      { destruct (existsb _ _) eqn:B; [|reflexivity]. exfalso. apply existsb_exists in B. destruct B as ([x' v] & I & B).
+        cbn [fst snd] in B. breflect.
+        specialize (NP x' v I H0). apply Qeq_bool_iff in NP. congruence. }
+      assert (B2 : forallb (fun w => Qeq_bool w 0) w = false).
+      { destruct (forallb _ w) eqn:B; [|reflexivity]. exfalso. destruct NZ as (v & I & N). rewrite forallb_forall in B.
+        apply N. apply Qeq_bool_iff. apply B. exact I. }
+      rewrite B1, B2 in H. cbn [orb andb] in H. breflect.
+      assert (SG : exists cs, sample_geomean (mkSample xs (Some w) sorted) = GExp cs).
+      { unfold sample_geomean. cbn [s_xs s_ws]. rewrite E. eexists. reflexivity. }
+      destruct SG as (cs & SG). rewrite SG in H.
+      pose proof (nonneg_combine xs w Fw) as NN. pose proof (wsum_w_pos xs w L Fw NZ) as WP.
+      pose proof (sample_geomean_coeffs xs w sorted cs Hx NN SG) as FC. rewrite (map_snd_combine xs w L) in FC.
+      unfold g_check in H.
+      destruct (st =? 0)%Z eqn:S0; [|congruence]. apply Z.eqb_eq in S0. split; [exact S0|].
+      destruct o as [| |g]; try (exfalso; apply H; reflexivity).
+      pose proof (coeffs_nonneg cs w _ WP Fw FC) as Fc.
+      destruct (geo_check_sound xs cs g Fc H) as [P [Q|Q]]; exists g; (split; [reflexivity|]); (split; [exact P|]).
+      * left. eapply power_weighted; [exact WP | symmetry; apply Qsum_combine_snd; exact L | exact FC | exact Q].
+      * right. rewrite <- (used_coeffs xs cs w _ WP FC). exact Q.
+  - cbn [orb] in H. assert (SG : sample_geomean (mkSample xs None sorted) = geomean xs).
+    { unfold sample_geomean. cbn [s_xs s_ws]. destruct xs; reflexivity. }
+    rewrite SG in H. apply geo_sound. exact H.
+Qed.
+
 
 Lemma asc_sound : forall l, asc l = true -> StronglySorted Qle l.
 Proof.
@@ -474,17 +765,18 @@ Proof.
   { destruct xs; bad_verdict V. }
   clear V. apply first_false_forall in R.
   pop R B0. pop R B1. pop R B2. pop R B3. pop R B4. pop R B5. pop R B6. pop R B7. pop R B8. pop R B9. pop R B10. pop R B11. pop R B12.
-  clear R B8. unfold stats_ok. cbv zeta.
+  clear R. unfold stats_ok. cbv zeta.
   destruct (sample_ok_sound _ _ _ _ HL) as [HL1 HL2].
   split; [exact HL1|]. split; [exact HL2|].
   split; [exact (mean_sound xs _ 0 _ B0)|].
   split; [exact (variance_sound xs 0 _ B1)|].
   split; [exact (stddev_sound xs 0 _ B2)|].
-  split; [exact (geo_sound xs _ B3)|].
+  split; [exact (proj2 (geo_sound xs 0 _ B3))|].
   split; [exact (bounds_sound xs _ _ B4)|].
   split; [apply (smean_sound xs (ows hasw ws) sorted); destruct hasw; exact B5|].
   split; [apply (svar_sound_stats xs (ows hasw ws) sorted); destruct hasw; exact B6|].
   split; [apply (sstd_sound_stats xs (ows hasw ws) sorted); destruct hasw; exact B7|].
+  split; [apply (sgeo_sound xs (ows hasw ws) sorted); destruct hasw; exact B8|].
   split; [apply (ssum_sound xs (ows hasw ws) sorted); destruct hasw; exact B9|].
   split; [apply (sweight_sound xs (ows hasw ws) sorted); destruct hasw; exact B10|].
   split; [apply (sbounds_sound xs (ows hasw ws) sorted); destruct hasw; exact B11|].
@@ -493,25 +785,6 @@ Qed.
 
 (* the premises of smean_ok / sbounds_ok are facts of an accepted case: the weighted Mean is compared whenever some
    weight is non-zero, Bounds always *)
-Lemma nonneg_combine : forall (xs ws : list Q), Forall (fun w => 0 <= w) ws -> nonneg_weights (combine xs ws).
-Proof.
-  unfold nonneg_weights. induction xs as [|x xt IH]; intros [|w wt] F; cbn; try constructor.
-  - inversion F; assumption.
-  - apply IH. inversion F; assumption.
-Qed.
-Lemma wsum_w_pos : forall (xs ws : list Q), length ws = length xs -> Forall (fun w => 0 <= w) ws ->
-  (exists w, In w ws /\ ~ w == 0) -> 0 < wsum_w (combine xs ws).
-Proof.
-  induction xs as [|x xt IH]; intros [|w wt] L F (w0 & I & N); cbn [length] in L; try discriminate; [destruct I|].
-  inversion F as [|? ? Hw F']; subst. cbn [combine]. rewrite wsum_w_cons.
-  assert (P : 0 <= wsum_w (combine xt wt)).
-  { clear -F'. revert wt F'. induction xt as [|y yt IH]; intros [|v vt] F; cbn; try lra; unfold wsum_w; cbn; try lra.
-    inversion F; subst. specialize (IH vt H2). unfold wsum_w in IH. lra. }
-  destruct I as [->|I].
-  - assert (0 < w0) by (apply Qnot_le_lt; intro C; apply N; lra). lra.
-  - specialize (IH wt ltac:(lia) F' (ex_intro _ w0 (conj I N))). lra.
-Qed.
-
 Theorem stats_ok_weighted sorted xs ws o : stats_ok sorted true xs ws o -> xs <> [] ->
   (exists w, In w ws /\ ~ w == 0) ->
   sm_st o = 0%Z /\ obs_near (tol_wmean xs) (wmean_def (combine xs ws)) (sm_mean o).
@@ -524,7 +797,7 @@ Theorem stats_ok_bounds sorted hasw xs ws o : stats_ok sorted hasw xs ws o ->
   bounds_ok (if hasw then used (combine xs ws) else xs) (s_bmin o) (s_bmax o).
 Proof.
   intros S. unfold stats_ok in S. cbv zeta in S.
-  destruct S as (HL & HS & _ & _ & _ & _ & _ & _ & _ & _ & _ & _ & SB & _). unfold sbounds_ok in SB.
+  destruct S as (HL & HS & _ & _ & _ & _ & _ & _ & _ & _ & _ & _ & _ & SB & _). unfold sbounds_ok in SB.
   destruct hasw; cbn [ows] in SB.
   - apply SB; [exact HS | exact (proj1 (HL eq_refl))].
   - apply SB. exact HS.
